@@ -29,22 +29,43 @@ def expectedOwner (d : Desc) (tok : Nat) : Option String :=
   | [] => none
   | c :: cs => some (cs.foldl (fun w i => if beats i w then i else w) c).id
 
-def judge (cas : Bool) (this other st : Desc) : List String := Id.run do
+/-- the last-writer-wins map of a merge before any conflict resolution: `lwwUnion`, and for a local CAS
+(`casNow = some now`) the entries missing from the incoming descriptor become token-less tombstones. -/
+def preOf (casNow : Option Int) (this othern : Desc) : Desc :=
+  let u := lwwUnion this othern
+  match casNow with
+  | none => u
+  | some now => u.map fun x =>
+      if (C03.get? othern x.id).isNone && x.state != .LEFT then { x with state := .LEFT, tokens := [], ts := now } else x
+
+/-- Judge of one merge step (gossip or local CAS) into a well-formed state, from the property text:
+the result is well-formed (unique ids, sorted duplicate-free token lists, tombstones hold nothing, no
+token held by two entries), and every token claimed by a not-left entry of the last-writer-wins map
+is held afterwards by exactly the documented winner among its claimants (not-leaving beats leaving,
+then the smaller id) — the sole claimant when there is no collision — and by nobody else ("the loser
+simply lacks the token"); no entry holds a token it did not claim. -/
+def judge (casNow : Option Int) (this other st : Desc) : List String := Id.run do
   let mut bad : List String := []
   if !C03.uniqueIds st then bad := "duplicate-ids" :: bad
   for i in st do
     if !C03.sortedStrict i.tokens then bad := s!"tokens-not-sorted-unique:{i.id}" :: bad
     if i.state == .LEFT && !i.tokens.isEmpty then bad := s!"left-holds-tokens:{i.id}" :: bad
   if C03.conflictsExist st then bad := "token-held-by-two" :: bad
-  if !cas then
-    let pre := lwwUnion this (C03.normalize other)
-    -- when this merge had to resolve a collision, each token went to the documented winner
-    if C03.conflictsExist pre then
-      for t in C03.allTokens pre do
-        match expectedOwner pre t with
-        | some w =>
-          if (st.filter fun i => i.tokens.contains t).map (·.id) != [w] then bad := s!"wrong-winner:{t}" :: bad
-        | none => pure ()
+  let pre := preOf casNow this (C03.normalize other)
+  let contested := C03.conflictsExist pre
+  let mut seen : List Nat := []
+  for t in C03.allTokens pre do
+    if !seen.contains t then
+      seen := t :: seen
+      match expectedOwner pre t with
+      | some w =>
+        if (st.filter fun i => i.tokens.contains t).map (·.id) != [w] then
+          bad := (if contested then s!"wrong-winner:{t}" else s!"token-not-with-its-claimant:{t}") :: bad
+      | none => pure ()
+  for i in st do
+    let claimed := match C03.get? pre i.id with | some p => p.tokens | none => []
+    for t in i.tokens do
+      if !claimed.contains t then bad := s!"token-never-claimed:{i.id}:{t}" :: bad
   return bad
 
 def handleStep (f : List String) : String × String × String :=
@@ -58,7 +79,7 @@ def handleStep (f : List String) : String × String × String :=
       let mc := match m.change with | none => "nil" | some c => showD c
       let diff := if ms == st && mc == chg then "-" else s!"state={ms} change={mc}"
       let pre := C03.wf this
-      let j := if pre then judge cas this other ist else []
+      let j := if pre then judge (if cas then some now else none) this other ist else []
       let j := if nres != "1" then s!"nondeterministic-merge:{nres}-results" :: j else j
       let j := if lk != "inc=0,panic=0" then s!"lookup-broken:{lk}" :: j else j
       -- readers hold snapshots sharing token storage with the replica's value: a merge must neither
@@ -71,8 +92,37 @@ def handleStep (f : List String) : String × String × String :=
     | _, _, _, _ => ("bad-input", "-", "-")
   | _ => ("bad-fields", "-", "-")
 
+/-- `C05.order`: one set of updates delivered to two replicas (both starting empty) in two orders.
+fields: updates (`|`-separated descriptors), order 1, order 2 (comma-separated indexes), `-` | end state 1,
+end state 2. diff: the model's two folds. judge: only what the property claims of EACH replica
+(well-formed end state); that the two replicas agree is NOT claimed when tokens collide
+(`PC05.winner_depends_on_delivery_order_witness`) — the tags record whether they do. -/
+def handleOrder (f : List String) : String × String × String :=
+  match f with
+  | [ups, o1, o2, _, e1, e2] =>
+    match (ups.splitOn "|").mapM parseDesc, natList? o1, natList? o2, parseDesc e1, parseDesc e2 with
+    | some us, some p1, some p2, some ie1, some ie2 =>
+      let run (p : List Nat) : Desc := p.foldl (fun s i => C03.mergeState s (us.getD i [])) []
+      let m1 := run p1
+      let m2 := run p2
+      let diff := if showD m1 == e1 && showD m2 == e2 then "-" else s!"end1={showD m1} end2={showD m2}"
+      let j := (if C03.wf ie1 then [] else ["end-state-1-not-well-formed"]) ++ (if C03.wf ie2 then [] else ["end-state-2-not-well-formed"])
+      let owner (d : Desc) (t : Nat) : List String := (d.filter fun i => i.tokens.contains t).map (·.id)
+      let toks := (C03.allTokens (us.flatten)).eraseDups
+      let differ := toks.any fun t => owner ie1 t != owner ie2 t
+      -- a token that ends with a LEAVING holder on one replica although a not-leaving, not-left entry claims it there
+      let leavingKeeps (d : Desc) : Bool := toks.any fun t =>
+        d.any (fun i => i.tokens.contains t && i.state == .LEAVING) &&
+        us.flatten.any (fun u => u.tokens.contains t && u.state != .LEAVING && u.state != .LEFT &&
+          (match C03.get? d u.id with | some x => x.ts == u.ts && x.state == u.state | none => false))
+      let tags := s!"order diverged={e1 != e2} owners_differ={differ} leaving_keeps_token={leavingKeeps ie1 || leavingKeeps ie2} n={us.length}"
+      (diff, if j.isEmpty then "-" else ",".intercalate j, tags)
+    | _, _, _, _, _ => ("bad-input", "-", "-")
+  | _ => ("bad-fields", "-", "-")
+
 def handle (cmd : String) (f : List String) : String × String × String :=
   if cmd == "C05.step" then handleStep f
+  else if cmd == "C05.order" then handleOrder f
   else ("unknown-cmd", "-", "-")
 
 end OracleC05
